@@ -74,14 +74,22 @@ class App:
         self.status = StatusFn(status_kind)
         self.log = world.Log()
         is_async = integration == 'aiohttp'
-        self.twin = world.World(is_async, 3)
+        self.twins = {}
+        for name in ('root', 'added'):
+            t = world.World(is_async, 3)
+            t.dispatcher.add(self._which(name, is_async), 'which')
+            self.twins[name] = t
         self.paths = {'root': root.rstrip('/')}
         if integration == 'aiohttp':
             from pjrpc.server.integration import aiohttp as integ
             self.app = integ.Application(root, status_by_error=self.status, max_batch_size=3)
             self.app.dispatcher.add_methods(world.build_registry(self.log, True))
+            self.app.dispatcher.add(self._which('root', True), 'which')
             d2 = self.app.add_endpoint('/sub', max_batch_size=3)
             d2.add_methods(world.build_registry(self.log, True))
+            d2.add(self._which('added', True), 'which')
+            d3 = self.app.add_endpoint('/last', max_batch_size=3)
+            d3.add(self._which('last', True), 'which')
             self.paths['added'] = (root.rstrip('/') + '/sub')
             self._start_aiohttp()
         elif integration == 'flask':
@@ -89,8 +97,12 @@ class App:
             from pjrpc.server.integration import flask as integ
             self.rpc = integ.JsonRPC(root or '/', status_by_error=self.status, max_batch_size=3)
             self.rpc.dispatcher.add_methods(world.build_registry(self.log, False))
+            self.rpc.dispatcher.add(self._which('root', False), 'which')
             d2 = self.rpc.add_endpoint('/sub', max_batch_size=3)
             d2.add_methods(world.build_registry(self.log, False))
+            d2.add(self._which('added', False), 'which')
+            d3 = self.rpc.add_endpoint('/last', max_batch_size=3)
+            d3.add(self._which('last', False), 'which')
             self.paths['added'] = (root.rstrip('/') + '/sub')
             self.flask_app = flask.Flask('vmon_c18')
             self.rpc.init_app(self.flask_app)
@@ -100,7 +112,18 @@ class App:
             from pjrpc.server.integration import werkzeug as integ
             self.rpc = integ.JsonRPC(root, max_batch_size=3)
             self.rpc.dispatcher.add_methods(world.build_registry(self.log, False))
+            self.rpc.dispatcher.add(self._which('root', False), 'which')
             self.client = werkzeug.test.Client(self.rpc)
+
+    @staticmethod
+    def _which(name, is_async):
+        if is_async:
+            async def which():
+                return name
+        else:
+            def which():
+                return name
+        return which
 
     def _start_aiohttp(self):
         from aiohttp.test_utils import TestClient, TestServer
@@ -203,7 +226,7 @@ def run_post(ctx, root, status_kind, path_key, media_type, body_hex, family):
                 ctx.ok(fam + ':non-utf8', cls, sample=wit)
             continue
         # ---- the twin dispatcher's verdict on the same text
-        t = serverside.observe(app.twin, text)
+        t = serverside.observe(app.twins['added' if path_key == 'added' and integration != 'werkzeug' else 'root'], text)
         if status == 415:
             ctx.violation(f'documented-media-type-refused:{main}' + (':with-parameters' if mclass == 'documented+params' else ''), fam, cls, **wit)
             continue
@@ -285,6 +308,7 @@ def bodies(rng, full):
         [docs.obj(id=1, method='ok', params=['a']), docs.obj(method='ok', params=['b']), docs.obj(id=2, method='nope')],
         [docs.obj(method='ok', params=['a']), docs.obj(method='noargs')],
         [docs.obj(id=1, method='ok', params=['a'])] * 2, [docs.obj(id=i, method='noargs') for i in range(4)], [], {'jsonrpc': '2.0'}, 5,
+        docs.obj(id='w', method='which'), [docs.obj(id='w', method='which'), docs.obj(id=1, method='ok', params=['x'])],
         docs.obj(id=7, method='slow', params=['s', 2]), docs.obj(id=0, method='fac2', params=[1, 2]), docs.obj(id='', method='kwonly', params={'a': 1}),
     ]
     for d in fixed:
